@@ -49,7 +49,7 @@ def v_table(p):
     t = s['table']
     li = LAST(vocab, k, b0)
     return dict(pos=z3.And(0 <= k, k <= n),
-                entry=t[b0] == z3.If(li >= 0, nr + li, to_z3(s['oov'])),
+                entry=t[b0] == z3.If(li >= 0, nr + li, nr + n),      # spec OOV = num_reserved + |vocab| (not a local name)
                 last=z3.And(li >= -1, li < k))
 
   loops = {0: Loop(inv=inv, expect='enumerate', hints=lambda s: [unfold(to_z3(s.it))])}
